@@ -9,6 +9,7 @@ import (
 	"fmt"
 	"math"
 	"math/big"
+	"math/bits"
 	"sync"
 	"sync/atomic"
 	"time"
@@ -22,7 +23,8 @@ import (
 
 func init() {
 	fw.Register(&fw.Prop{
-		ID: "C12",
+		ID:     "C12",
+		Builds: []string{"default", "386"}, // the 386 build runs a quarter of the random classes on a 32-bit target
 		Rule: "lane (hook level): message lengths 8..65536 and targets t such that lx = len*t spans 8..2^64-1 including 3^k-1, 3^k, 3^k+1 and the 64-bit edge; s and T are obtained from the real sufficientTrailingZeros/targetHash exactly as Mine does (not asserted); 64-lane bit-plane states with lanes drawn from: random trits, exactly s-2, s-1, s, s+1, 243 trailing zeros, s-1 zeros with hash in {T-1, T, T+1}, hashes whose difficulty equals lx exactly / lx+1 / lx-1, all-zero and all-(-1) hashes, placed at lane 0, lane 63, several lanes, no lane. Oracle: a returned lane i < 64 must have difficulty floor(3^243/h_i) >= lx; a return of 64 means no lane has difficulty > lx. toint: toInt(trits) == 1 + sum d_i 3^i. score: Score(msg) == min(floor(d/len), 2^64-1) with d from the model hash. mine: Mine(1 worker) must return a nonce with Score >= t and no nonce in the 64-blocks before the returned one's block may have difficulty > lx (every skipped nonce is re-hashed by the model); Mine(2..16 workers) soundness; t = 0 returns at once. shared: two demanding Mine calls (lx just below a power of three) and a looping easy one run concurrently on ONE *Worker; every returned nonce must meet its own target. " +
 			"Non-trivial: lane cases that reach the big-integer comparison (a lane with exactly s-1 zeros and none with s), mine cases whose scan covered at least one full block, all toint cases with a non-zero high chunk.",
 		Assumptions: []string{"BLAKE2b-256 (x/crypto), math/big", "the Curl-P-81 / b1t6 model in harness/oracle/curlp (self-tested)", "Score's big-integer fall-back (difficulty >= 2^64) needs a hash with >= 41 trailing zeros and is unreachable through Score; only toInt is checked on such vectors"},
@@ -246,7 +248,8 @@ func judgeLane(seed uint64, dataLen int, t uint64, o *fw.Obs) {
 		},
 	}
 	var l, h [243]uint
-	lanes := make([][]int8, 64)
+	const nl = bits.UintSize // 64 lanes on 64-bit targets, 32 in the 386 build
+	lanes := make([][]int8, nl)
 	for j := range lanes {
 		lanes[j] = nonQual()
 	}
@@ -257,12 +260,12 @@ func judgeLane(seed uint64, dataLen int, t uint64, o *fw.Obs) {
 	case 1:
 		spots = []int{0}
 	case 2:
-		spots = []int{63}
+		spots = []int{nl - 1}
 	case 3:
-		spots = []int{r.Intn(64)}
+		spots = []int{r.Intn(nl)}
 	default:
 		for k := 1 + r.Intn(5); k > 0; k-- {
-			spots = append(spots, r.Intn(64))
+			spots = append(spots, r.Intn(nl))
 		}
 	}
 	for _, j := range spots {
@@ -298,11 +301,11 @@ func judgeLane(seed uint64, dataLen int, t uint64, o *fw.Obs) {
 		o.Nontrivial()
 		o.Count("lane reached big-int stage")
 	}
-	if got < 0 || got > 64 {
+	if got < 0 || got > nl {
 		o.Fail("range", "checkStateTrits returned %d", got)
 		return
 	}
-	if got < 64 {
+	if got < nl {
 		d := difficultyOf(lanes[got])
 		if d.Cmp(lx) < 0 {
 			o.Fail("unsound", "len=%d target=%d (lx=%v, s=%d): lane %d accepted but its difficulty %v is below lx (hash %v, target hash %v)", n, t, lx, s, got, d, hashInt(lanes[got]), T)
